@@ -524,6 +524,129 @@ def k_fs(c):
     return 'fs ' + ','.join(':'.join(str(x) for x in opt) for opt in c['ops']), r, oracle
 
 
+def _okey(machine, name):
+    from mesonbuild.options import OptionKey
+    from mesonbuild.mesonlib import MachineChoice
+    return OptionKey(name, machine=MachineChoice.BUILD if machine == 0 else MachineChoice.HOST)
+
+
+def _show_dict(items):
+    return ';'.join(f'{int(k.machine)}:{enc(k.name)}={enc_list(v)}' for k, v in items)
+
+
+def k_envargs(c):
+    """real Environment._set_default_options_from_env under an os.environ populated in the order the case gives,
+    then real Environment.add_lang_args for every query; the tables, the iteration orders of the two language
+    sets this process observes and split_args (as a table) go to the model"""
+    from mesonbuild import environment as E, options as O
+    from mesonbuild.compilers import compilers as CC
+    from mesonbuild.mesonlib import MachineChoice
+    from mesonbuild.utils.universal import split_args
+    saved = dict(os.environ)
+    try:
+        os.environ.clear()
+        for k, v in c['env']:
+            os.environ[k] = v
+        seen_env = list(os.environ.items())
+        mach = {MachineChoice.BUILD: types.SimpleNamespace(is_windows=lambda: bool(c['win'][0])),
+                MachineChoice.HOST: types.SimpleNamespace(is_windows=lambda: bool(c['win'][1]))}
+        opts = {_okey(m, n): ['pre'] for m, n in c['options']}
+        pre = list(opts.items())
+        stub = types.SimpleNamespace(is_cross_build=lambda: bool(c['cross']), machines=mach,
+                                     first_invocation=bool(c['first']), options=opts, env_opts={})
+        E.Environment._set_default_options_from_env(stub)
+    finally:
+        os.environ.clear()
+        os.environ.update(saved)
+    allopts = list(stub.options.items())
+    additions = allopts[len(pre):]
+    envopts = list(stub.env_opts.items())
+    results = []
+    for lang, m, drv, pa, pl in c['queries']:
+        store = O.OptionStore(bool(c['cross']))
+        akey, lkey = _okey(m, f'{lang}_args'), _okey(m, f'{lang}_link_args')
+        if pa is not None:
+            store.pending_options[store.ensure_and_validate_key(akey)] = list(pa)
+        if pl is not None:
+            store.pending_options[store.ensure_and_validate_key(lkey)] = list(pl)
+        stub2 = types.SimpleNamespace(coredata=types.SimpleNamespace(optstore=store), env_opts=stub.env_opts)
+        comp = types.SimpleNamespace(USED_FOR_SEPARATE_LINKING_STEP=bool(drv))
+        E.Environment.add_lang_args(stub2, lang, comp, MachineChoice.BUILD if m == 0 else MachineChoice.HOST)
+        results.append([list(store.options[store.ensure_and_validate_key(akey)].value),
+                        list(store.options[store.ensure_and_validate_key(lkey)].value)])
+    impl = ('PREFIX-CHANGED#' if allopts[:len(pre)] != pre else '') + _show_dict(additions) + '#' + _show_dict(envopts) + '#' + \
+        '!'.join(enc_list(a) + '/' + enc_list(b) for a, b in results)
+    lf = list(CC.CFLAGS_MAPPING.items())
+    nl = list(E.NON_LANG_ENV_OPTIONS)
+    vals = list(dict.fromkeys(v for _k, v in seen_env))
+    queries = ';'.join(':'.join([enc(lang), str(m), str(int(bool(drv))), '0' if pa is None else '1', enc_list(pa or []),
+                                 '0' if pl is None else '1', enc_list(pl or [])]) for lang, m, drv, pa, pl in c['queries'])
+    line = 'envargs ' + '|'.join([
+        str(int(bool(c['cross']))), str(int(bool(c['first']))), str(int(bool(c['win'][0]))), str(int(bool(c['win'][1]))),
+        enc_list([k for k, _ in lf]), enc_list([v for _, v in lf]), enc_list([v for v, _ in nl]), enc_list([k for _, k in nl]),
+        enc_list(list(CC.LANGUAGES_USING_LDFLAGS)), enc_list(list(CC.LANGUAGES_USING_CPPFLAGS)),
+        enc_list([k for k, _ in seen_env]), enc_list([v for _, v in seen_env]),
+        enc_list(vals), ';'.join(enc_list(split_args(v)) for v in vals),
+        ','.join(str(m) for m, _ in c['options']), enc_list([n for _, n in c['options']]), queries])
+    out = {'options': [[int(k.machine), k.name, list(v)] for k, v in additions], 'args': results}
+    return line, impl, out
+
+
+def k_buildrpaths(c):
+    """real mintro.list_install_plan: `build_rpaths` of an installed target (a set of bytes)"""
+    from mesonbuild import mintro
+    s = mkset(x.encode('utf-8') for x in c['items'])
+    it = [x.decode('utf-8') for x in s]
+    t = types.SimpleNamespace(fname='libx.so', out_name='{libdir}/libx.so', tag=None, subproject='', install_rpath='',
+                              rpath_dirs_to_remove=s)
+    idata = types.SimpleNamespace(build_dir='/b', targets=[t], data=[], man=[], headers=[], install_subdirs=[])
+    plan = mintro.list_install_plan(None, None, types.SimpleNamespace(create_install_data=lambda: idata))
+    out = plan['targets']['/b/libx.so']['build_rpaths']
+    return f'buildrpaths {enc_list(it)}', enc_list(out), out
+
+
+def k_depacc(c):
+    """real NinjaBackend.generate_dependency_scan_target on a stand-in backend: the `depaccumulate` statement"""
+    from mesonbuild.backend import ninjabackend as N
+    from mesonbuild.mesonlib import MesonException
+    K = _testser_classes()
+
+    def mk(name, dyn, fortran):
+        t = K['BT'](name, [])
+        t.name = name
+        t._dyn = dyn
+        t.uses_fortran = lambda: fortran
+        return t
+    linked = [mk(n, dyn, False) for n, dyn in c['linked']]
+    od = [mk(n, True, f) for n, f in c['od']]
+    builds = []
+    d = common.scratch_dir('c06dep-')
+    try:
+        stub = types.SimpleNamespace(
+            should_use_dyndeps_for_target=lambda t: t._dyn, _uses_dyndeps=False,
+            get_dep_scan_file_for=lambda t: (t.name + '.json', t.name + '.dd'),
+            get_target_private_dir=lambda t: 'priv', get_target_private_dir_abs=lambda t: d,
+            select_sources_to_scan=lambda srcs: [], all_outputs=set(), order_deps_to_strings=lambda t, o: [],
+            add_build=builds.append, flatten_object_list=lambda t: ([], od))
+        target = mk(c['name'], True, False)
+        target.get_all_linked_targets = lambda: linked
+        N.NinjaBackend.generate_dependency_scan_target(stub, target, [], {}, [])
+    finally:
+        common.rmtree(d)
+    el = builds[-1]
+    el.rule = N.NinjaRule('depaccumulate', ['x'], ['$in'], 'desc')
+    try:
+        f = io.StringIO()
+        el.write(f)
+        r = 'OK:' + enc(f.getvalue().split('\n', 1)[0] + '\n')
+    except MesonException:
+        r = 'ERR:newline'
+    line = 'depacc ' + '|'.join([enc(c['name'] + '.dd'), enc(c['name'] + '.json'),
+                                 enc_list([n + '.json' for n, dyn in c['linked'] if dyn]),
+                                 enc_list([n + '.json' for n, f in c['od'] if f])])
+    return line, r, r
+
+
 KINDS = {n[2:]: f for n, f in list(globals().items()) if n.startswith('k_')}
 
 
